@@ -44,7 +44,7 @@ def registered(alg, op):
 
 def floors(tier):
     f = {'distinct_nontrivial': 2500 if tier == 'quick' else 60000, 'variant_permuted': 600, 'variant_padded': 600,
-         'variant_dense': 100, 'exception_parity_checked': 20, 'wrapper_configured_cases': 300}
+         'variant_dense': 100, 'exception_parity_checked': 20, 'wrapper_configured_cases': 300, 'highdim_inverse_layout_cases': 15}
     for o in ALLOPS:
         f['op_' + o] = (25 if tier == 'quick' else 300) if 'polarity' not in o else (10 if tier == 'quick' else 100)
     return f
@@ -68,6 +68,9 @@ def plan(tier, seed):
         nshards = 64
     for c in cfgs:
         U.append({'cfg': c, 'per_op': per})
+    # d >= 6: the inverse switches to the iterative scheme; layouts of homogeneous operands there
+    for c in ([{'p': 6, 'q': 0, 'r': 0}, {'p': 4, 'q': 2, 'r': 0}, {'p': 5, 'q': 0, 'r': 1}, {'p': 3, 'q': 3, 'r': 0}] if tier == 'quick' else rng.sample(gen.pqr_all(6, 6), 16) + rng.sample(gen.pqr_all(7, 7), 6)):
+        U.append({'cfg': c, 'highdim': 9 if tier == 'quick' else 14})
     rng.shuffle(U)
     return [{'units': part} for part in gen.split(U, nshards)]
 
@@ -102,6 +105,13 @@ def run_shard(shard, ctx):
             continue
         iso = Iso(alg)
         ctx.count('algebras')
+        if unit.get('highdim'):
+            for j in range(unit['highdim']):
+                if ctx.out_of_time():
+                    ctx.count('cases_skipped_out_of_time')
+                    return
+                highdim_layout_case(ctx, alg, iso, cfg, name)
+            continue
         for op in ALLOPS:
             for j in range(unit['per_op']):
                 if ctx.out_of_time():
@@ -217,3 +227,59 @@ def one_case(ctx, alg, iso, cfg, name, op):
         ctx.violation('result depends on operand layout', cid, blades=[alg.bin2canon[k] for k in bad[:6]],
                       canonical_result=show_elem({k: g1.get(k, 0) for k in bad[:4]}),
                       variant_result=show_elem({k: g2.get(k, 0) for k in bad[:4]}), **wit)
+
+
+def highdim_layout_case(ctx, alg, iso, cfg, name):
+    """d >= 6 (the iterative inverse): a homogeneous element stored sparsely, permuted, and padded with an explicit zero of ANOTHER grade
+    must have the same inverse.  Both layouts are executed with 400-bit mpmath coefficients, so that the double-precision cancellation
+    of the d >= 6 inverse (known finding C07/iterative-inverse-float-cancellation) cannot show up as a layout difference."""
+    try:
+        import mpmath
+    except Exception:
+        ctx.count('mpmath_missing')
+        return
+    rng = ctx.rng
+    canon = tuple(alg.canon2bin.values())
+    d = alg.d
+    g = rng.choice((1, 2, 2, 2, 3))
+    blades = [k for k in canon if bin(k).count('1') == g]
+    ks = tuple(rng.sample(blades, rng.randint(1, 2)))
+    others = [k for k in canon if bin(k).count('1') != g and bin(k).count('1') <= 4]
+    pad = rng.choice(others)
+    vals = {k: Fr(rng.choice((1, 2, 3, -2, 5)), rng.choice((1, 2))) for k in ks}
+    layouts = {'sparse': ks, 'permuted': tuple(reversed(ks)), 'zero of another grade': tuple(sorted(ks + (pad,)))}
+    if len(ks) == 1:
+        del layouts['permuted']
+    cid = [name, 'inv-highdim', list(ks), pad, [str(vals[k]) for k in ks]]
+    if not ctx.want(cid):
+        return
+    old = mpmath.mp.prec
+    mpmath.mp.prec = 400
+    try:
+        res = {}
+        for lname, lk in layouts.items():
+            x = gen.mv_from(alg, lk, [mpmath.mpf(vals[k].numerator) / vals[k].denominator if k in vals else mpmath.mpf(0) for k in lk])
+            st, r = ctx.guarded(120, lambda: x.inv())
+            if st == 'timeout':
+                ctx.count('case_timeouts')
+                return
+            res[lname] = ('exc', type(r).__name__) if st == 'exc' else ('ok', mv_dict(r))
+        ctx.count('highdim_inverse_layout_cases')
+        ctx.case(cid)
+        base = res['sparse']
+        for lname, other in res.items():
+            if lname == 'sparse':
+                continue
+            wit = dict(config=cfg, op='inv', keys=list(ks), values=[str(vals[k]) for k in ks], layout=lname, layout_keys=list(layouts[lname]))
+            if base[0] != other[0]:
+                ctx.violation('one layout raises, the other returns a value', cid + [lname], sparse=base[1] if base[0] == 'exc' else 'value',
+                              variant=other[1] if other[0] == 'exc' else 'value', **wit)
+            elif base[0] == 'ok':
+                bad = [k for k in set(base[1]) | set(other[1])
+                       if abs(mpmath.mpmathify(base[1].get(k, 0)) - mpmath.mpmathify(other[1].get(k, 0))) > mpmath.mpf(10) ** -30]
+                if bad:
+                    ctx.violation('result depends on operand layout', cid + [lname], blades=[alg.bin2canon[k] for k in bad[:6]],
+                                  canonical_result=str({alg.bin2canon[k]: mpmath.nstr(mpmath.mpmathify(base[1].get(k, 0)), 12) for k in bad[:4]}),
+                                  variant_result=str({alg.bin2canon[k]: mpmath.nstr(mpmath.mpmathify(other[1].get(k, 0)), 12) for k in bad[:4]}), **wit)
+    finally:
+        mpmath.mp.prec = old
